@@ -332,6 +332,9 @@ def text_method(ctx, s, name, args, kwargs):
             return ctx.alloc("list", init={"v": r})
         return r
     if name == "format":
+        exact = simple_format(s, args, kwargs)
+        if exact is not None:
+            return exact
         return ctx.fresh(ty if ty in TEXT else "str", "fmt")     # message text is opaque
     st = z(s)
     if name == "find":
@@ -370,6 +373,44 @@ def text_method(ctx, s, name, args, kwargs):
     if h is not None:
         return h(ctx, s, args, kwargs)
     raise Undecided("text method %s on symbolic %s" % (name, ty))
+
+
+def simple_format(s, args, kwargs):
+    """'..{0}..{1}..'.format(a, b) exactly, when the template is a concrete str whose fields are plain positional ones (no
+    conversion, no format spec) and every argument used is a str (symbolic or concrete): the concatenation.  Else None."""
+    import string
+    if not isinstance(s, str) or kwargs:
+        return None
+    try:
+        fields = list(string.Formatter().parse(s))
+    except ValueError:
+        return None
+    parts, auto = [], 0
+    for lit, field, spec, conv in fields:
+        if lit:
+            parts.append(z3.StringVal(lit))
+        if field is None:
+            continue
+        if spec or conv:
+            return None
+        if field == "":
+            idx, auto = auto, auto + 1
+        elif field.isdigit():
+            idx = int(field)
+        else:
+            return None
+        if idx >= len(args):
+            return None
+        a = args[idx]
+        if isinstance(a, str):
+            parts.append(z3.StringVal(a))
+        elif isinstance(a, SV) and a.ty == "str":
+            parts.append(a.t)
+        else:
+            return None
+    if not parts:
+        return ""
+    return SV(z3.Concat(*parts) if len(parts) > 1 else parts[0], "str")
 
 
 def text_format(ctx, a, b):
@@ -1029,6 +1070,9 @@ def wseq_method(ctx, r, s, name, args, kwargs):
 # ------------------------------------------------------------------ ref operators
 
 def ref_binop(ctx, op, a, b):
+    for x in (a, b):
+        if isinstance(x, Ref) and x.kind == "ext" and hasattr(ctx.st(x)["model"], "binop"):
+            return ctx.st(x)["model"].binop(ctx, op, a, b)       # sidecar model of an operator on a model object
     if isinstance(op, ast.Add):
         if isinstance(a, Ref) and a.kind == "list" and isinstance(b, Ref) and b.kind == "list":
             return ctx.alloc("list", init={"v": list(ctx.st(a)["v"]) + list(ctx.st(b)["v"])})
